@@ -3,8 +3,8 @@
 import json, os
 claimed = {
  "C01": ("bounded symbolic execution (gosym over go/ssa, SMT-decided) of ComputeSignature, WritePatch, wsync differ, wire, patcher, fresh bowl on an in-memory file system; native replay of counterexamples",
-         "Within the instance grids (scaled block size 2..4, 1-3 files up to 2B+1 bytes, 9x9 shape relations) all byte values are covered by the solver at once; NONE compression only.",
-         "memfs/md5/protobuf models; deterministic goroutine schedule; compression codecs outside the claim"),
+         "Within the instance grids (scaled block size 2..4, 1-3 files up to 2B+1 bytes, 9x9 shape relations) all byte values are covered by the solver at once; compression: NONE and two model codecs (wiring only); one regime-R harness with unscaled constants.",
+         "memfs/md5/protobuf models; deterministic goroutine schedule; real compression codecs outside the claim (model codecs cover the wiring)"),
  "C02": ("bounded symbolic execution of the overlay bowl (stage + Commit) under the real patcher on an in-memory file system; every iteration order of the maps visited during Commit explored as decisions; SMT-decided; native replay",
          "For the 19 path-level relations x listed sizes, all contents (generic position) and all commit map orders: old build untouched before Commit, result == new build == fresh apply. Includes 4 kind-swap relations.",
          "memfs/md5/protobuf models; scaled constants; deterministic goroutine schedule"),
